@@ -395,7 +395,7 @@ contract('Core.Environment.get_agents',
          requires=[Env_rep],
          ensures={'C13': [get_agents_post]},
          modifies=['new:list[ref:Agent]'],
-         locals={'matching_agents': 'list[ref:Agent]'},
+         locals={'matching_agents': 'list[ref:Agent]'}, roles={'matching_agents': 'emptylist#0'},
          cases=[dict(name='tag', params={'tag': 'int'}), dict(name='notag', params={'tag': 'none'})],
          props=['C13'])
 
